@@ -593,6 +593,12 @@ pub fn check_lookup(bytes: &[u8], ctx: &mut Ctx) -> Outcome {
     }
     attrs.insert("nope9".into());
     args.insert("nope9".into());
+    // the introspection meta-fields are not elements of any type: `Query.__typename`, `Query.__schema`,
+    // `Query.__type(name:)` must not resolve (the reference schema has no such fields)
+    for m in ["__typename", "__schema", "__type"] {
+        attrs.insert(m.into());
+    }
+    args.insert("name".into());
     // The five built-in scalars are left out: a `Valid<Schema>` documents that it drops the ones no
     // field / argument / input field refers to, so whether `Int` resolves depends on usage.
     let mut type_names: Vec<String> = rs
@@ -620,7 +626,7 @@ pub fn check_lookup(bytes: &[u8], ctx: &mut Ctx) -> Outcome {
             let is_field = matches!(ref_lookup(&rs, &r), Some(Elem::Field { .. }));
             // arguments: the whole argument-name universe on real fields; one probe on everything else
             // (enum values, input fields, union/scalar attributes, missing attributes, missing types)
-            if is_field {
+            if is_field || a.starts_with("__") {
                 for g in &args {
                     lookup_one(&schema, &rs, &RefCoord::FieldArg(t.clone(), a.clone(), g.clone()), &mut fails, &mut classes);
                     n += 1;
